@@ -314,31 +314,32 @@ impl SparqlTranslator {
         // We extract triples from the pattern and create delete operations
         let triples = Self::extract_triples_from_pattern(pattern);
 
-        // Build delete operators with the match plan as input
-        let mut ops = Vec::new();
+        if triples.is_empty() {
+            return Ok(LogicalPlan::new(match_plan));
+        }
+
+        // DELETE WHERE { P } is DELETE { P } WHERE { P }: the pattern is matched once,
+        // then every triple pattern is instantiated with each solution and deleted
+        let mut delete_templates = Vec::new();
         for triple in &triples {
             let subject = self.translate_triple_term(&triple.subject)?;
             let predicate = self.translate_property_path(&triple.predicate)?;
             let object = self.translate_triple_term(&triple.object)?;
 
-            ops.push(LogicalOperator::DeleteTriple(DeleteTripleOp {
+            delete_templates.push(TripleTemplate {
                 subject,
                 predicate,
                 object,
                 graph: None, // Default graph
-                input: Some(Box::new(match_plan.clone())),
-            }));
+            });
         }
 
-        if ops.is_empty() {
-            Ok(LogicalPlan::new(match_plan))
-        } else if ops.len() == 1 {
-            Ok(LogicalPlan::new(ops.into_iter().next().unwrap()))
-        } else {
-            Ok(LogicalPlan::new(LogicalOperator::Union(UnionOp {
-                inputs: ops,
-            })))
-        }
+        Ok(LogicalPlan::new(LogicalOperator::Modify(ModifyOp {
+            delete_templates,
+            insert_templates: Vec::new(),
+            where_clause: Box::new(match_plan),
+            graph: None,
+        })))
     }
 
     fn extract_triples_from_pattern(pattern: &ast::GraphPattern) -> Vec<ast::TriplePattern> {
